@@ -59,4 +59,23 @@ Reversible == LET r == Flow(c.q, c.p, c)
                   b == Flow(r[1], Neg(r[2], c.d), c)
               IN  b[1] = c.q /\ b[2] = Neg(c.p, c.d)
 VolumePreserving == c.det => LET M == MapMatrix(c) IN Det(M, 2 * c.d) = ROne
+
+\* The integrator is a function of (target, q, p, eps, L, W) only - it carries nothing from one call to the next.  Potential with
+\* location m: U(q) = (q - m)'A(q - m) / 2, kicks use A(q - m).  Calling it again, on the same objects, from where the previous
+\* trajectory ended (q1) after ANOTHER operator has moved the target's location to m = q1 - q0 must give the first trajectory
+\* translated by m; an integrator that remembers the last gradient gives something else.  The harness replays exactly this history.
+Sub(x, y, d) == [i \in Idx(d) |-> RAdd(x[i], RNeg(y[i]))]
+Add(x, y, d) == [i \in Idx(d) |-> RAdd(x[i], y[i])]
+StepsLoc(k, q, p, cs, m) ==
+    FoldLeft(LAMBDA acc, i : LET q1 == Axpy(cs.eps, MatVec(cs.W, acc[2], cs.d), acc[1], cs.d)
+                             IN  <<q1, Axpy(RNeg(cs.eps), MatVec(cs.A, Sub(q1, m, cs.d), cs.d), acc[2], cs.d)>>,
+             <<q, p>>, [i \in 1..k |-> i])
+FlowLoc(q, p, cs, m) == LET half == RDiv(cs.eps, RInt(2))
+                            p0 == Axpy(RNeg(half), MatVec(cs.A, Sub(q, m, cs.d), cs.d), p, cs.d)
+                            r == StepsLoc(cs.L, q, p0, cs, m)
+                        IN  <<r[1], Axpy(half, MatVec(cs.A, Sub(r[1], m, cs.d), cs.d), r[2], cs.d)>>
+HistoryFree == LET r == Flow(c.q, c.p, c)
+                   m == Sub(r[1], c.q, c.d)
+                   s == FlowLoc(r[1], c.p, c, m)
+               IN  s[1] = Add(r[1], m, c.d) /\ s[2] = r[2]
 =============================================================================
